@@ -823,3 +823,262 @@ func hasLoopPred(b *ssa.BasicBlock) bool {
 	}
 	return false
 }
+
+// c11DeleteRequiresMatch: RFC 7950 7.20.3.2 — a `deviate delete` names the value
+// it deletes and that argument MUST match the target's. In applyDeviation units
+// are cleared (setUnits("")) and the default is cleared (clearDefault) only on
+// the side of the comparison where the two are equal; the other side is the error.
+func c11DeleteRequiresMatch(ctx *core.Ctx, r *core.Report) {
+	f := ctx.Method("meta", "resolver", "applyDeviation")
+	if f == nil {
+		r.Fatalf("anchor meta.resolver.applyDeviation not found")
+		return
+	}
+	n := 0
+	for _, c := range core.CallSites(f) {
+		m := core.IfaceMethod(c)
+		if m == nil {
+			continue
+		}
+		what := ""
+		switch m.Name() {
+		case "setUnits":
+			if s, ok := core.ConstString(c.Common().Args[0]); ok && s == "" {
+				what = "units"
+			}
+		case "clearDefault":
+			what = "default"
+		}
+		if what == "" {
+			continue
+		}
+		n++
+		onEqual := false
+		for _, pc := range core.PathConds(c.Block()) {
+			switch x := pc.V.(type) {
+			case *ssa.BinOp:
+				if isStringType(x.X.Type()) && ((x.Op == token.EQL && pc.True) || (x.Op == token.NEQ && !pc.True)) {
+					if _, isEmpty := core.ConstString(x.Y); !isEmpty {
+						onEqual = true
+					}
+				}
+			case *ssa.Call:
+				if cal := core.StaticCallee(x); cal != nil && strings.Contains(cal.Name(), "Equal") && pc.True {
+					onEqual = true
+				}
+			}
+		}
+		r.Ob("delete-requires-match", "meta.resolver.applyDeviation/delete-"+what, ctx.Pos(c.Pos()), onEqual,
+			"deviate delete removes the target's "+what+" without being on the side of the comparison where the deviate's argument equals the target's value: a matching argument is refused (or any argument is accepted) — RFC 7950 7.20.3.2 requires the argument to match")
+	}
+	r.Floor("delete-requires-match", n, 2)
+}
+
+// c14ImportRememberedAsAsked backs the visited guard of resolver.module for
+// imports: the table of loaded modules is looked up by the name the import asks
+// for, so the loaded module is entered under that name before the recursion — a
+// module answering to another name would otherwise be loaded again for every
+// import of it, without end when the imports form a cycle.
+func c14ImportRememberedAsAsked(ctx *core.Ctx, r *core.Report) {
+	f := ctx.Method("meta", "resolver", "module")
+	if f == nil {
+		r.Fatalf("anchor meta.resolver.module not found")
+		return
+	}
+	rec := callsStatic(f, f, false)
+	ok := false
+	core.Instrs(f, func(_ *ssa.BasicBlock, in ssa.Instruction) {
+		mu, isMu := in.(*ssa.MapUpdate)
+		if !isMu {
+			return
+		}
+		_, fld, _, isField := mapFieldOf(mu.Map)
+		if !isField || fld != "loadedModules" {
+			return
+		}
+		if !strings.HasSuffix(paramFieldChain(mu.Key), ".moduleName") {
+			return
+		}
+		for _, c := range rec {
+			if instrDominates(mu, c.(ssa.Instruction)) {
+				ok = true
+			}
+		}
+	})
+	r.Ob("guard-backing", "meta.resolver.module/import-remembered-under-requested-name", ctx.Pos(f.Pos()), ok && len(rec) > 0,
+		"an imported module is remembered only under the name it declares while the table is looked up by the name the import asks for: when the two differ the module is loaded and resolved again for every import of it — for ever, if its own imports lead back")
+}
+
+// c14SingleDefaultGuard backs the triage of Leaf/Choice/Typedef.addDefault's
+// "default already set" panic for deviations: applyDeviation hands several
+// defaults to addDefault only after testing that the target takes several.
+func c14SingleDefaultGuard(ctx *core.Ctx, r *core.Report) {
+	f := ctx.Method("meta", "resolver", "applyDeviation")
+	if f == nil {
+		return
+	}
+	for _, c := range core.CallSites(f) {
+		if m := core.IfaceMethod(c); m == nil || m.Name() != "addDefault" {
+			continue
+		}
+		// the slice whose elements are handed to addDefault
+		var defaults ssa.Value
+		if u, ok := core.Strip(c.Common().Args[0]).(*ssa.UnOp); ok {
+			if ia, ok := u.X.(*ssa.IndexAddr); ok {
+				defaults = ia.X
+			}
+		}
+		guarded := false
+		core.Instrs(f, func(b *ssa.BasicBlock, in ssa.Instruction) {
+			ifi, ok := in.(*ssa.If)
+			if !ok {
+				return
+			}
+			bo, ok := ifi.Cond.(*ssa.BinOp)
+			if !ok || bo.Op != token.GTR {
+				return
+			}
+			if k, isC := core.ConstInt(bo.Y); !isC || k != 1 {
+				return
+			}
+			lc, ok := bo.X.(*ssa.Call)
+			if !ok || defaults == nil || len(lc.Common().Args) != 1 || lc.Common().Args[0] != defaults {
+				return
+			}
+			// more than one: an error return
+			t := b.Succs[0]
+			if ret, isRet := t.Instrs[len(t.Instrs)-1].(*ssa.Return); isRet && !mayBeSuccess(ret) {
+				guarded = true
+			}
+		})
+		r.Ob("guard-backing", "meta.resolver.applyDeviation/several-defaults-only-where-allowed", ctx.Pos(c.Pos()), guarded,
+			"deviate add hands every default it states to addDefault without a test `more than one default → error` for targets that hold a single one: a second default on a leaf is the panic \"default already set\"")
+	}
+}
+
+// c13NextStepGuarded: xpathImpl.resolvePath reads its step argument at once
+// (seg.Ident). Wherever it calls itself with the next step of the expression
+// (seg.Next, nextSeg), that step was tested for nil on the way — an expression
+// may end on a container or a list.
+func c13NextStepGuarded(ctx *core.Ctx, r *core.Report) {
+	f := ctx.Method("node", "xpathImpl", "resolvePath")
+	if f == nil {
+		r.Fatalf("anchor node.xpathImpl.resolvePath not found")
+		return
+	}
+	n := 0
+	for _, c := range callsStatic(f, f, false) {
+		n++
+		arg := c.Common().Args[1]
+		chain := paramFieldChain(arg)
+		guarded := false
+		for _, pc := range core.PathConds(c.Block()) {
+			bo, ok := pc.V.(*ssa.BinOp)
+			if !ok || (!core.IsNilConst(bo.Y) && !core.IsNilConst(bo.X)) {
+				continue
+			}
+			v := bo.X
+			if core.IsNilConst(bo.X) {
+				v = bo.Y
+			}
+			if paramFieldChain(v) == chain {
+				// the recursion is on the side where the step is not nil
+				if (bo.Op == token.NEQ && pc.True) || (bo.Op == token.EQL && !pc.True) {
+					guarded = true
+				}
+			}
+		}
+		// the list branch returns early when there is no next step and no expression
+		if !guarded {
+			core.Instrs(f, func(b *ssa.BasicBlock, in ssa.Instruction) {
+				ifi, ok := in.(*ssa.If)
+				if !ok || !b.Dominates(c.Block()) {
+					return
+				}
+				var mentions func(v ssa.Value, d int) bool
+				mentions = func(v ssa.Value, d int) bool {
+					if v == nil || d > 4 {
+						return false
+					}
+					switch x := v.(type) {
+					case *ssa.BinOp:
+						if (core.IsNilConst(x.Y) && paramFieldChain(x.X) == chain) || (core.IsNilConst(x.X) && paramFieldChain(x.Y) == chain) {
+							return true
+						}
+						return mentions(x.X, d+1) || mentions(x.Y, d+1)
+					case *ssa.Phi:
+						for _, e := range x.Edges {
+							if mentions(e, d+1) {
+								return true
+							}
+						}
+					}
+					return false
+				}
+				if mentions(ifi.Cond, 0) {
+					guarded = true
+				}
+			})
+		}
+		r.Ob("guard-backing", fmt.Sprintf("node.xpathImpl.resolvePath/next-step-tested#%d", n), ctx.Pos(c.Pos()), guarded,
+			"resolvePath calls itself with the expression's next step ("+chain+") without having tested it for nil: an expression that ends on a container (where=c) dereferences the missing step")
+	}
+	r.Floor("guard-backing(resolvePath recursion)", n, 2)
+}
+
+// c13ReflectListsTestKey: the reflection-backed list nodes (Reflect.listSlice,
+// Reflect.listMap) look an entry up by key or create one under a key only after
+// isKeyValid said the key tuple is complete; an incomplete key is a bad request.
+func c13ReflectListsTestKey(ctx *core.Ctx, r *core.Report) {
+	ikv := ctx.Fn("nodeutil", "isKeyValid")
+	if ikv == nil {
+		r.Fatalf("anchor nodeutil.isKeyValid not found")
+		return
+	}
+	n := 0
+	for _, name := range []string{"listSlice", "listMap"} {
+		f := ctx.Method("nodeutil", "Reflect", name)
+		if f == nil {
+			r.Fatalf("anchor nodeutil.Reflect.%s not found", name)
+			continue
+		}
+		for _, clo := range withClosures(f)[1:] {
+			if clo.Signature.Params().Len() != 1 || !strings.HasSuffix(core.TypeName(clo.Signature.Params().At(0).Type()), "ListRequest") {
+				continue
+			}
+			n++
+			cs := callsStatic(clo, ikv, false)
+			ok := len(cs) > 0
+			for _, c := range cs {
+				// the invalid side returns an error
+				bad := false
+				for _, ref := range *c.Value().Referrers() {
+					ifi, isIf := ref.(*ssa.If)
+					if !isIf {
+						if u, isU := ref.(*ssa.UnOp); isU && u.Op == token.NOT {
+							for _, r2 := range *u.Referrers() {
+								if i2, ok2 := r2.(*ssa.If); ok2 {
+									t := i2.Block().Succs[0]
+									if ret, isRet := t.Instrs[len(t.Instrs)-1].(*ssa.Return); isRet && !mayBeSuccess(ret) {
+										bad = true
+									}
+								}
+							}
+						}
+						continue
+					}
+					e := ifi.Block().Succs[1]
+					if ret, isRet := e.Instrs[len(e.Instrs)-1].(*ssa.Return); isRet && !mayBeSuccess(ret) {
+						bad = true
+					}
+				}
+				if !bad {
+					ok = false
+				}
+			}
+			r.Ob("guard-backing", "nodeutil.Reflect."+name+"/key-tested", ctx.Pos(clo.Pos()), ok,
+				"the list node uses the key of a request without isKeyValid → bad request: a JSON entry that lacks (some of) its key leaves is a nil dereference, or is matched by row and merged into another entry")
+		}
+	}
+	r.Floor("guard-backing(reflect list nodes)", n, 2)
+}
